@@ -103,6 +103,7 @@ type Path struct {
 	nextTag             string
 	blobs               []Iface // JSON identity codec snapshots
 	elemOrigin          map[*Value]elemRef
+	undo                []undoRec
 	atomicDepth         int
 	preemptions         int
 	preemptBound        int
